@@ -16,7 +16,7 @@ META = {'technique': 'TLC-enumerated call histories of Subjects.tla (Kind=async)
           'after unsubscription (also between the value and the completion) and DisposedRaises on every '
           'state and exports every history with its accepted observations; each is performed on the real '
           'AsyncSubject (falsy last values, falsy exception objects) and compared after every top-level '
-          'call. Exhaustive up to the stated call budget, simulated beyond it.',
- 'note': 'TLC 1.8; the call/value codec of props/subjects_common.py (identity-based value comparison); '
+          'call. Exhaustive up to the stated call budget, simulated beyond it. In addition adjacent calls of exported histories (subscribe vs an emitting call; AsyncSubject on_next vs on_completed) are issued on two threads under DetSched (preemption bound 2/3) and the outcome must be the exported outcome of one of the two sequential orders; dispose() from inside a callback is modelled with an open cut-off set.',
+ 'note': 'TLC 1.8; DetSched shims for the subject locks (a source line without a call is atomic); the call/value codec of props/subjects_common.py (identity-based value comparison); '
          'single thread',
  'ref': 'DESIGN.md 6 C23, D.8'}
